@@ -167,11 +167,13 @@ func (g *Gen) Stmt(d int) node.Type {
 		}
 	}
 	cond := func() node.Type {
-		switch vrt.Choice("cond", 3) {
+		switch vrt.Choice("cond", 4) {
 		case 0:
 			return node.Bool(vrt.Bool("cond-lit"))
 		case 1:
 			return node.UnOp{Op: "!", Target: node.Bool(vrt.Bool("cond-lit"))}
+		case 2:
+			return node.UnOp{Op: "!", Target: g.poly(1)}
 		default:
 			return g.poly(1)
 		}
@@ -193,8 +195,8 @@ func (g *Gen) Stmt(d int) node.Type {
 		return node.IfElse{Condition: cond(), TrueCase: g.Stmt(d - 1), FalseCase: g.Stmt(d - 1)}
 	case 3: // counted loop, value of the body is the value of the loop
 		return blk(asg("w", node.Int(0)), node.While{Condition: bin("<", nm("w"), node.Int(2)), Body: blk(asg("w", bin("+", nm("w"), node.Int(1))), g.Stmt(d-1))})
-	case 4: // loop left by return
-		return node.While{Condition: node.Bool(true), Body: node.Return{Target: leaf()}}
+	case 4: // loop left by return (condition of any kind, plain or negated)
+		return node.While{Condition: cond(), Body: node.Return{Target: leaf()}}
 	case 5:
 		return node.While{Condition: node.Bool(false), Body: g.Stmt(d - 1)}
 	case 6:
